@@ -145,13 +145,13 @@ PROPS["C26"] = {
 }
 
 PROPS["C31"] = {
-    "enc": ["SFTSpaceMap::new", "has_sft_entry", "addr_to_index", "index_to_space_range", "Map64::new", "insert", "get_descriptor_for_address", "space_index", "is_space_start",
+    "enc": ["SFTSpaceMap::new", "has_sft_entry", "SFTSparseChunkMap::has_sft_entry (table bound, hook verif_without_table)", "addr_to_index", "index_to_space_range", "Map64::new", "insert", "get_descriptor_for_address", "space_index", "is_space_start",
             "SpaceDescriptor::create_descriptor_from_heap_range/get_index", "VMLayout::new_64bit"],
     "sym": "address over the full 0..=usize::MAX; inserted space index 1..=15 and extent",
     "bound": "Index arithmetic only, default 64-bit layout: no loop over addresses (symbolic), one inserted space.",
-    "outside": "table contents of the SFT maps (SFTRefStorage = portable_atomic::AtomicU128, inline asm, not executable by Kani), SFTDenseChunkMap/SFTSparseChunkMap, is_in_mmtk_spaces end-to-end (needs live spaces)",
+    "outside": "table contents of the SFT maps (SFTRefStorage = portable_atomic::AtomicU128, inline asm, not executable by Kani), SFTDenseChunkMap, SFTSparseChunkMap beyond its entry test (update/set/get), is_in_mmtk_spaces end-to-end (needs live spaces)",
     "assumptions": COMMON_ASSUME + ["default 64-bit VMLayout"],
-    "level_text": "Bounded symbolic execution (Kani/CBMC) of the real SFT space-map and Map64 index arithmetic for every 64-bit address: a lookup that passes has_sft_entry indexes inside the table, entries cover exactly spaces 1..=15, Map64::get_descriptor_for_address answers every address without panicking with the inserted descriptor or UNINITIALIZED, and both maps agree on the space index.",
+    "level_text": "Bounded symbolic execution (Kani/CBMC) of the real SFT space-map and Map64 index arithmetic for every 64-bit address: a lookup that passes has_sft_entry indexes inside the table, entries cover exactly spaces 1..=15, Map64::get_descriptor_for_address answers every address without panicking with the inserted descriptor or UNINITIALIZED, and both maps agree on the space index; the sparse chunk map reports an entry exactly for addresses whose chunk index is inside the table new() allocates.",
     "level_note": "Kernel-level claim: index agreement and totality, not table contents.",
 }
 
